@@ -587,6 +587,21 @@ func (m *mapClassifier) stmt(s ast.Stmt, keyEq bool) string {
 					}
 					continue
 				}
+				// filling a pre-allocated outer slice at a running position: the same as appending to it — the slice holds
+				// the iteration data in map order and must be totally sorted after the loop
+				if bid, ok := ast.Unparen(ix.X).(*ast.Ident); ok {
+					if _, isSlice := info.TypeOf(ix.X).Underlying().(*types.Slice); isSlice {
+						if iid, ok := ast.Unparen(ix.Index).(*ast.Ident); ok && !m.declaredInLoop(m.obj(iid)) && m.obj(iid) != m.key && m.obj(iid) != m.val {
+							if o := m.obj(bid); o != nil {
+								m.appended[o] = true
+								if why := m.callsOK(rhs); why != "" {
+									return why
+								}
+								continue
+							}
+						}
+					}
+				}
 				return "indexed store " + types.ExprString(lhs)
 			}
 			if _, ok := lhs.(*ast.SelectorExpr); ok {
@@ -816,6 +831,9 @@ func (m *mapClassifier) sortedAfter(o types.Object) string {
 		if ret, isRet := s.(*ast.ReturnStmt); isRet && len(ret.Results) == 1 && m.obj(ret.Results[0]) == o && m.appendsOnlyKeys(o) {
 			return producerMarker
 		}
+		if m.sortedByHelper(s, o) {
+			return ""
+		}
 		es, ok := s.(*ast.ExprStmt)
 		if !ok {
 			return "slice " + o.Name() + " collected in map order is used before being sorted"
@@ -847,6 +865,89 @@ func (m *mapClassifier) sortedAfter(o types.Object) string {
 		return "slice " + o.Name() + " collected in map order is passed to " + full + " before being sorted"
 	}
 	return "slice " + o.Name() + " collected in map order is never sorted in this function"
+}
+
+// sortedByHelper: the statement's only mention of the slice hands it to a function of the same package whose first
+// statement that mentions the corresponding parameter is a total sort of it (sort.Strings(p) and the like).
+func (m *mapClassifier) sortedByHelper(s ast.Stmt, o types.Object) bool {
+	info := m.pk.TypesInfo
+	found := false
+	nMention := 0
+	ast.Inspect(s, func(n ast.Node) bool {
+		if id, ok := n.(*ast.Ident); ok && info.Uses[id] == o {
+			nMention++
+		}
+		call, ok := n.(*ast.CallExpr)
+		if !ok {
+			return true
+		}
+		var fo *types.Func
+		switch f := call.Fun.(type) {
+		case *ast.Ident:
+			fo, _ = info.Uses[f].(*types.Func)
+		case *ast.SelectorExpr:
+			fo, _ = info.Uses[f.Sel].(*types.Func)
+		}
+		if fo == nil || fo.Pkg() == nil || fo.Pkg() != m.pk.Types {
+			return true
+		}
+		for i, a := range call.Args {
+			if m.obj(a) != o {
+				continue
+			}
+			// the callee's declaration
+			for _, file := range m.pk.Syntax {
+				for _, d := range file.Decls {
+					fd, ok := d.(*ast.FuncDecl)
+					if !ok || fd.Body == nil || info.Defs[fd.Name] != types.Object(fo) {
+						continue
+					}
+					var prm types.Object
+					k := 0
+					for _, fl := range fd.Type.Params.List {
+						for _, nm := range fl.Names {
+							if k == i {
+								prm = info.Defs[nm]
+							}
+							k++
+						}
+					}
+					if prm == nil {
+						continue
+					}
+					for _, st := range fd.Body.List {
+						mentions := false
+						ast.Inspect(st, func(n ast.Node) bool {
+							if id, ok := n.(*ast.Ident); ok && info.Uses[id] == prm {
+								mentions = true
+							}
+							return !mentions
+						})
+						if !mentions {
+							continue
+						}
+						if es, ok := st.(*ast.ExprStmt); ok {
+							if c2, ok := es.X.(*ast.CallExpr); ok && len(c2.Args) >= 1 {
+								if id, ok := ast.Unparen(c2.Args[0]).(*ast.Ident); ok && info.Uses[id] == prm {
+									if sel, ok := c2.Fun.(*ast.SelectorExpr); ok {
+										if f2, _ := info.Uses[sel.Sel].(*types.Func); f2 != nil && f2.Pkg() != nil {
+											switch f2.Pkg().Path() + "." + f2.Name() {
+											case "sort.Strings", "sort.Ints", "sort.Float64s", "slices.Sort":
+												found = true
+											}
+										}
+									}
+								}
+							}
+						}
+						break
+					}
+				}
+			}
+		}
+		return true
+	})
+	return found && nMention == 1
 }
 
 const producerMarker = "returns the map's keys as a slice in map order"
